@@ -23,11 +23,12 @@ type cenv struct {
 	inits  map[types.Object]ast.Expr
 	byText map[string]constant.Value       // concrete values by expression text ("attr.Name")
 	byObj  map[types.Object]constant.Value // concrete values of variables
+	tables map[types.Object]*ast.CompositeLit // variables / parameters standing for a constant table
 	depth  int
 }
 
 func newCenv(info *types.Info, pkg *types.Package, decls []*ast.FuncDecl) *cenv {
-	ce := &cenv{info: info, pkg: pkg, decls: map[types.Object]*ast.FuncDecl{}, inits: map[types.Object]ast.Expr{}, byText: map[string]constant.Value{}, byObj: map[types.Object]constant.Value{}}
+	ce := &cenv{info: info, pkg: pkg, decls: map[types.Object]*ast.FuncDecl{}, inits: map[types.Object]ast.Expr{}, byText: map[string]constant.Value{}, byObj: map[types.Object]constant.Value{}, tables: map[types.Object]*ast.CompositeLit{}}
 	for _, fd := range decls {
 		ce.decls[info.Defs[fd.Name]] = fd
 	}
@@ -35,7 +36,7 @@ func newCenv(info *types.Info, pkg *types.Package, decls []*ast.FuncDecl) *cenv 
 }
 
 func (ce *cenv) child() *cenv {
-	return &cenv{info: ce.info, pkg: ce.pkg, decls: ce.decls, inits: ce.inits, byText: map[string]constant.Value{}, byObj: map[types.Object]constant.Value{}, depth: ce.depth + 1}
+	return &cenv{info: ce.info, pkg: ce.pkg, decls: ce.decls, inits: ce.inits, byText: map[string]constant.Value{}, byObj: map[types.Object]constant.Value{}, tables: map[types.Object]*ast.CompositeLit{}, depth: ce.depth + 1}
 }
 
 // eval returns the value of e, or ok=false when it depends on something that is not known.
@@ -107,9 +108,47 @@ func (ce *cenv) eval(e ast.Expr, local map[types.Object]ast.Expr) (constant.Valu
 		}
 		return nil, false
 	case *ast.CallExpr:
+		// conversions between basic types: T(x)
+		if tv, ok := ce.info.Types[x.Fun]; ok && tv.IsType() && len(x.Args) == 1 {
+			v, ok := ce.eval(x.Args[0], local)
+			if !ok {
+				return nil, false
+			}
+			if b, isB := tv.Type.Underlying().(*types.Basic); isB {
+				switch {
+				case b.Info()&types.IsInteger != 0 && v.Kind() == constant.Int:
+					return v, true
+				case b.Info()&types.IsString != 0 && v.Kind() == constant.String:
+					return v, true
+				case b.Info()&types.IsString != 0 && v.Kind() == constant.Int:
+					if i, exact := constant.Int64Val(v); exact {
+						return constant.MakeString(string(rune(i))), true
+					}
+				}
+			}
+			return nil, false
+		}
+		if id, ok := ast.Unparen(x.Fun).(*ast.Ident); ok && id.Name == "len" && len(x.Args) == 1 {
+			if _, isBuiltin := ce.info.ObjectOf(id).(*types.Builtin); isBuiltin {
+				if tbl := ce.tableOf(x.Args[0], local); tbl != nil {
+					return constant.MakeInt64(int64(ce.tableLen(tbl))), true
+				}
+				if v, ok := ce.eval(x.Args[0], local); ok && v.Kind() == constant.String {
+					return constant.MakeInt64(int64(len(constant.StringVal(v)))), true
+				}
+				return nil, false
+			}
+		}
 		fn := calleeOf(ce.info, x)
 		if fn == nil {
 			return nil, false
+		}
+		if fd := ce.decls[fn]; fd != nil && fd.Body != nil && ce.depth <= 3 {
+			vals, ok := ce.callLocal(fd, x, local)
+			if !ok || len(vals) == 0 {
+				return nil, false
+			}
+			return vals[0], true
 		}
 		var args []constant.Value
 		for _, a := range x.Args {
@@ -152,23 +191,30 @@ func (ce *cenv) eval(e ast.Expr, local map[types.Object]ast.Expr) (constant.Valu
 				return constant.MakeString(html.EscapeString(str(0))), true
 			}
 		}
-		// a package-local function: evaluate its body on the arguments
-		fd := ce.decls[fn]
-		if fd == nil || fd.Body == nil || ce.depth > 3 {
-			return nil, false
-		}
-		sub := ce.child()
-		i := 0
-		for _, prm := range fd.Type.Params.List {
-			for _, nm := range prm.Names {
-				if i < len(args) {
-					sub.byObj[ce.info.Defs[nm]] = args[i]
+		return nil, false
+	case *ast.IndexExpr:
+		// the k-th result of a call of a package-local function (synthetic node made by the path enumerator)
+		if call, ok := ast.Unparen(x.X).(*ast.CallExpr); ok {
+			if bl, isLit := x.Index.(*ast.BasicLit); isLit && bl.Kind == token.INT && x.Lbrack == token.NoPos {
+				if fn := calleeOf(ce.info, call); fn != nil {
+					if fd := ce.decls[fn]; fd != nil && fd.Body != nil && ce.depth <= 3 {
+						vals, ok := ce.callLocal(fd, call, local)
+						k := int(bl.Value[0] - '0')
+						if ok && k < len(vals) {
+							return vals[k], true
+						}
+					}
 				}
-				i++
+				return nil, false
 			}
 		}
-		return sub.evalBody(fd)
-	case *ast.IndexExpr:
+		if tbl := ce.tableOf(x.X, local); tbl != nil {
+			k, ok := ce.eval(x.Index, local)
+			if !ok {
+				return nil, false
+			}
+			return ce.tableAt(tbl, k)
+		}
 		// constant map / table lookups used as sets: m[key] with a package-level composite literal
 		k, ok := ce.eval(x.Index, local)
 		if !ok {
@@ -201,42 +247,11 @@ func (ce *cenv) eval(e ast.Expr, local map[types.Object]ast.Expr) (constant.Valu
 // evalBody evaluates a function with a single result on the parameter values in ce.byObj: the unique path whose atoms
 // all evaluate consistently decides the result.
 func (ce *cenv) evalBody(fd *ast.FuncDecl) (constant.Value, bool) {
-	den := &denum{info: ce.info, pkg: ce.pkg, inits: ce.inits, limit: 5000}
-	den.finish(den.run(fd.Body.List, []dstate{{env: map[types.Object]ast.Expr{}}}))
-	if den.undecided != "" {
+	vals, ok := ce.evalBodyMulti(fd)
+	if !ok || len(vals) != 1 {
 		return nil, false
 	}
-	var result constant.Value
-	found := false
-	for _, pth := range den.paths {
-		feasible, certain := true, true
-		for _, pc := range pth.Conds {
-			v, ok := ce.eval(pc.Expr, pth.Env)
-			if !ok {
-				certain = false
-				continue
-			}
-			if v.Kind() != constant.Bool || constant.BoolVal(v) != pc.Val {
-				feasible = false
-				break
-			}
-		}
-		if !feasible {
-			continue
-		}
-		if !certain || pth.Ret == nil || len(pth.Ret.Results) != 1 {
-			return nil, false
-		}
-		v, ok := ce.eval(pth.Ret.Results[0], pth.Env)
-		if !ok {
-			return nil, false
-		}
-		if found && (v.Kind() != result.Kind() || !constant.Compare(v, token.EQL, result)) {
-			return nil, false
-		}
-		result, found = v, true
-	}
-	return result, found
+	return vals[0], true
 }
 
 // feasible reports whether the path's atoms are consistent with the concrete values (unknown atoms are free).
@@ -254,4 +269,180 @@ func (ce *cenv) feasible(pth dpath) bool {
 		}
 	}
 	return true
+}
+
+// callLocal evaluates a call of a package-local function on concrete arguments (constants, or constant tables).
+func (ce *cenv) callLocal(fd *ast.FuncDecl, call *ast.CallExpr, local map[types.Object]ast.Expr) ([]constant.Value, bool) {
+	sub := ce.child()
+	i := 0
+	for _, prm := range fd.Type.Params.List {
+		for _, nm := range prm.Names {
+			if i >= len(call.Args) {
+				return nil, false
+			}
+			if tbl := ce.tableOf(call.Args[i], local); tbl != nil {
+				sub.tables[ce.info.Defs[nm]] = tbl
+			} else if v, ok := ce.eval(call.Args[i], local); ok {
+				sub.byObj[ce.info.Defs[nm]] = v
+			} else {
+				return nil, false
+			}
+			i++
+		}
+	}
+	return sub.evalBodyMulti(fd)
+}
+
+// tableOf: the constant composite literal that e (a variable or parameter) stands for.
+func (ce *cenv) tableOf(e ast.Expr, local map[types.Object]ast.Expr) *ast.CompositeLit {
+	e = ast.Unparen(e)
+	if cl, ok := e.(*ast.CompositeLit); ok {
+		return cl
+	}
+	id, ok := e.(*ast.Ident)
+	if !ok {
+		return nil
+	}
+	ob := ce.info.ObjectOf(id)
+	if t, ok := ce.tables[ob]; ok {
+		return t
+	}
+	if b, ok := local[ob]; ok && !refersTo(ce.info, b, ob) {
+		return ce.tableOf(b, local)
+	}
+	if init, ok := ce.inits[ob]; ok {
+		if cl, ok := ast.Unparen(init).(*ast.CompositeLit); ok {
+			return cl
+		}
+	}
+	return nil
+}
+
+func (ce *cenv) tableEntries(cl *ast.CompositeLit) (map[int64]ast.Expr, int64) {
+	out := map[int64]ast.Expr{}
+	var next, max int64
+	for _, el := range cl.Elts {
+		val := el
+		if kv, ok := el.(*ast.KeyValueExpr); ok {
+			if k, ok := ce.eval(kv.Key, nil); ok && k.Kind() == constant.Int {
+				next, _ = constant.Int64Val(k)
+			}
+			val = kv.Value
+		}
+		out[next] = val
+		next++
+		if next > max {
+			max = next
+		}
+	}
+	return out, max
+}
+
+func (ce *cenv) tableLen(cl *ast.CompositeLit) int {
+	if _, isMap := ce.info.TypeOf(cl).Underlying().(*types.Map); isMap {
+		return len(cl.Elts)
+	}
+	_, n := ce.tableEntries(cl)
+	return int(n)
+}
+
+func (ce *cenv) tableAt(cl *ast.CompositeLit, k constant.Value) (constant.Value, bool) {
+	if mt, isMap := ce.info.TypeOf(cl).Underlying().(*types.Map); isMap {
+		for _, el := range cl.Elts {
+			if kv, isKV := el.(*ast.KeyValueExpr); isKV {
+				if kk, okk := ce.eval(kv.Key, nil); okk && kk.Kind() == k.Kind() && constant.Compare(kk, token.EQL, k) {
+					return ce.eval(kv.Value, nil)
+				}
+			}
+		}
+		if b, isB := mt.Elem().Underlying().(*types.Basic); isB {
+			switch {
+			case b.Kind() == types.Bool:
+				return constant.MakeBool(false), true
+			case b.Info()&types.IsString != 0:
+				return constant.MakeString(""), true
+			}
+		}
+		return nil, false
+	}
+	if k.Kind() != constant.Int {
+		return nil, false
+	}
+	i, _ := constant.Int64Val(k)
+	ents, n := ce.tableEntries(cl)
+	if i < 0 || i >= n {
+		return nil, false // out of range: the source would panic; not a value
+	}
+	if e, ok := ents[i]; ok {
+		return ce.eval(e, nil)
+	}
+	// a gap in a keyed slice literal: the element type's zero value
+	var et types.Type
+	switch t := ce.info.TypeOf(cl).Underlying().(type) {
+	case *types.Slice:
+		et = t.Elem()
+	case *types.Array:
+		et = t.Elem()
+	}
+	if b, isB := et.Underlying().(*types.Basic); isB {
+		switch {
+		case b.Info()&types.IsString != 0:
+			return constant.MakeString(""), true
+		case b.Kind() == types.Bool:
+			return constant.MakeBool(false), true
+		case b.Info()&types.IsInteger != 0:
+			return constant.MakeInt64(0), true
+		}
+	}
+	return nil, false
+}
+
+// evalBodyMulti: like evalBody for any number of results.
+func (ce *cenv) evalBodyMulti(fd *ast.FuncDecl) ([]constant.Value, bool) {
+	den := &denum{info: ce.info, pkg: ce.pkg, inits: ce.inits, limit: 5000}
+	den.finish(den.run(fd.Body.List, []dstate{{env: map[types.Object]ast.Expr{}}}))
+	if den.undecided != "" {
+		return nil, false
+	}
+	var result []constant.Value
+	for _, pth := range den.paths {
+		feasible, certain := true, true
+		for _, pc := range pth.Conds {
+			v, ok := ce.eval(pc.Expr, pth.Env)
+			if !ok {
+				certain = false
+				continue
+			}
+			if v.Kind() != constant.Bool || constant.BoolVal(v) != pc.Val {
+				feasible = false
+				break
+			}
+		}
+		if !feasible {
+			continue
+		}
+		if !certain || pth.Ret == nil {
+			return nil, false
+		}
+		var vals []constant.Value
+		for _, r := range pth.Ret.Results {
+			v, ok := ce.eval(r, pth.Env)
+			if !ok {
+				return nil, false
+			}
+			vals = append(vals, v)
+		}
+		if result != nil {
+			if len(result) != len(vals) {
+				return nil, false
+			}
+			for i := range vals {
+				if vals[i].Kind() != result[i].Kind() || !constant.Compare(vals[i], token.EQL, result[i]) {
+					return nil, false
+				}
+			}
+		}
+		result = vals
+	}
+	return result, result != nil
 }
